@@ -9,7 +9,8 @@ import os
 import sys
 from concurrent.futures import ProcessPoolExecutor
 
-from .docmodel import constructs, project_text, word
+from .docmodel import TOKEN_RE_NOSPACE, _tok_id, ACCENT_BASE, NUMERIC_BASE, constructs, project_text, word
+import unicodedata
 import re
 
 _ALNUM = re.compile(r"[^\W_]+")
@@ -36,6 +37,9 @@ def number_blocks(blocks, start=1):
             t = i[0]
             if t in ("r", "fn", "cm"):
                 out.append([t, n[0]])
+                n[0] += 1
+            elif t in ("rx", "rn"):     # accented two-word run / 16-digit number: same leaf, other rendering (docmodel.word)
+                out.append(["r", n[0] + (ACCENT_BASE if t == "rx" else NUMERIC_BASE)])
                 n[0] += 1
             elif t in ("a", "ins", "del", "isdt"):
                 out.append([t, inl(i[1])])
@@ -220,6 +224,8 @@ def _proj(text):
     words = []
     for gap in p["residue"]:
         words.extend(_ALNUM.findall(gap))
+        # invisible characters that are not white space (byte-order mark, NUL, other control / format characters)
+        words.extend(f"U+{ord(c):04X}" for c in gap if not c.isspace() and unicodedata.category(c) in ("Cc", "Cf", "Co", "Cn"))
     return {"obs": p["ids"], "sep": p["sep"], "residue": words[:6]}
 
 
@@ -229,14 +235,14 @@ def _cell_proj(v):
         p = project_text(v)
         rest = "".join(p["residue"]).strip()
         if p["ids"] and not _ALNUM.search(rest):
-            return {"k": "ids", "v": p["ids"], "s": "", "v2": p["ids"]}
+            return {"k": "ids", "v": p["ids"], "s": "", "v2": p["ids"], "sep": p["sep"]}
         if v.strip() == "":
-            return {"k": "ids", "v": [], "s": "", "v2": []}
+            return {"k": "ids", "v": [], "s": "", "v2": [], "sep": []}
         # v2: the token ids found after deleting all white space (a word broken by inserted blanks)
-        return {"k": "lit", "v": [], "s": v[:60], "v2": project_text(re.sub(r"\s+", "", v))["ids"]}
+        return {"k": "lit", "v": [], "s": v[:60], "v2": [_tok_id(m) for m in TOKEN_RE_NOSPACE.finditer(re.sub(r"\s+", "", v))], "sep": []}
     if v is None:
-        return {"k": "ids", "v": [], "s": "", "v2": []}
-    return {"k": "val", "v": [], "s": f"{type(v).__name__}:{v!r}"[:60], "v2": []}
+        return {"k": "ids", "v": [], "s": "", "v2": [], "sep": []}
+    return {"k": "val", "v": [], "s": f"{type(v).__name__}:{v!r}"[:60], "v2": [], "sep": []}
 
 
 def observe(job):
